@@ -348,9 +348,6 @@ func RunBatch(t *testing.T, bs BatchSpec) BatchResult {
 		if len(r.Viol) > 0 {
 			handle(spec, &r)
 		}
-		if res.Runs%64 == 0 {
-			runtime.GC()
-		}
 	}
 	if bs.LastFile != "" {
 		os.Remove(bs.LastFile)
